@@ -16,7 +16,10 @@ import (
 // no overflow - recorded in the evidence).  Two expressions that compute the
 // same polynomial get the same canonical string, whatever their shape.
 
-type poly map[string]int64 // monomial (sorted atom keys joined by "*") -> coefficient; "" = constant term
+type poly map[string]int64 // monomial (sorted atom keys joined by monoSep) -> coefficient; "" = constant term
+
+// monoSep joins the atoms of a monomial; it cannot occur inside an atom key.
+const monoSep = "\x1f"
 
 type formEval struct {
 	f     *ssa.Function
@@ -73,13 +76,13 @@ func polyMul(a, b poly) poly {
 		for kb, vb := range b {
 			var parts []string
 			if ka != "" {
-				parts = append(parts, strings.Split(ka, "*")...)
+				parts = append(parts, strings.Split(ka, monoSep)...)
 			}
 			if kb != "" {
-				parts = append(parts, strings.Split(kb, "*")...)
+				parts = append(parts, strings.Split(kb, monoSep)...)
 			}
 			sort.Strings(parts)
-			k := strings.Join(parts, "*")
+			k := strings.Join(parts, monoSep)
 			r[k] += va * vb
 			if r[k] == 0 {
 				delete(r, k)
@@ -116,9 +119,9 @@ func (p poly) String() string {
 		case k == "":
 			fmt.Fprintf(&sb, "%d", c)
 		case c == 1:
-			sb.WriteString(k)
+			sb.WriteString(strings.ReplaceAll(k, monoSep, " x "))
 		default:
-			fmt.Fprintf(&sb, "%d*%s", c, k)
+			fmt.Fprintf(&sb, "%d x %s", c, strings.ReplaceAll(k, monoSep, " x "))
 		}
 	}
 	return sb.String()
@@ -233,7 +236,7 @@ func (fe *formEval) eval(v ssa.Value) poly {
 	p := fe.eval1(v)
 	fe.memo[v] = p
 	for k := range p {
-		if k != "" && !strings.Contains(k, "*") {
+		if k != "" && !strings.Contains(k, monoSep) {
 			if _, ok := fe.atoms[k]; !ok {
 				fe.atoms[k] = v
 			}
@@ -257,11 +260,22 @@ func (fe *formEval) eval1(v ssa.Value) poly {
 		if isIntegerType(x.Type()) && isIntegerType(x.X.Type()) {
 			return fe.eval(x.X)
 		}
+		// integer <- float of math.Pow10(n): named by its argument
+		if call, ok := x.X.(*ssa.Call); ok && isIntegerType(x.Type()) {
+			if obj := calleeObj(&call.Call); isFunc(obj, "math", "Pow10") {
+				return atomPoly("Pow10(" + fe.eval(call.Call.Args[0]).String() + ")")
+			}
+		}
 	case *ssa.ChangeType:
 		return fe.eval(x.X)
 	case *ssa.UnOp:
 		if x.Op == token.SUB {
 			return polyAdd(poly{}, fe.eval(x.X), -1)
+		}
+		if x.Op == token.MUL && isIntegerType(x.Type()) {
+			if sv, ok := forwardLoad(x); ok {
+				return fe.eval(sv)
+			}
 		}
 	case *ssa.BinOp:
 		switch x.Op {
@@ -607,4 +621,185 @@ func enumOnEdge(in map[*ssa.BasicBlock]enumSet, isDisc func(v ssa.Value) bool, f
 		return eq
 	}
 	return ne
+}
+
+// forwardLoad: store-to-load forwarding along the straight-line path that
+// dominates the load: the most recent store to the same access path (same
+// root value, same member chain) in the load's block or in its chain of
+// unique predecessors, with no intervening call that receives the root.
+func forwardLoad(ld *ssa.UnOp) (ssa.Value, bool) {
+	lp, ok := pathOf(ld)
+	if !ok || len(lp.Elems) == 0 {
+		return nil, false
+	}
+	want := strings.Join(lp.Elems, ".")
+	b := ld.Block()
+	idx := instrIndex(ld)
+	for hops := 0; hops < 12; hops++ {
+		for i := idx - 1; i >= 0; i-- {
+			switch x := b.Instrs[i].(type) {
+			case *ssa.Store:
+				sp, ok := pathOfAddr(x.Addr)
+				if ok && sp.Root == lp.Root && strings.Join(sp.Elems, ".") == want {
+					return x.Val, true
+				}
+				if ok && sp.Root == lp.Root && strings.HasPrefix(want, strings.Join(sp.Elems, ".")) && len(sp.Elems) < len(lp.Elems) {
+					return nil, false // an enclosing member was replaced
+				}
+			case ssa.CallInstruction:
+				for _, a := range x.Common().Args {
+					if stripConv(a) == lp.Root {
+						return nil, false
+					}
+				}
+			}
+		}
+		if len(b.Preds) != 1 {
+			return nil, false
+		}
+		b = b.Preds[0]
+		idx = len(b.Instrs)
+	}
+	return nil, false
+}
+
+// pathOfAddr: access path of the location an address denotes.
+func pathOfAddr(addr ssa.Value) (accessPath, bool) {
+	fa, ok := addr.(*ssa.FieldAddr)
+	if !ok {
+		return accessPath{}, false
+	}
+	st := derefStruct(fa.X.Type())
+	if st == nil {
+		return accessPath{}, false
+	}
+	base, ok := pathOf(fa.X)
+	if !ok {
+		return accessPath{}, false
+	}
+	// pathOf(fa.X) describes the pointer value; when it is itself an Alloc/param the path is the root
+	return accessPath{Root: base.Root, Elems: append(append([]string{}, base.Elems...), st.Field(fa.Field).Name())}, true
+}
+
+// ---------------------------------------------------------------------------
+// memory merges: a load at a join whose value was stored on every incoming path
+
+type formAlt struct {
+	form     poly
+	from, at *ssa.BasicBlock // the edge the alternative arrives on (nil: unconditional)
+}
+
+// storeBefore searches backwards from (b, idx) along unique predecessors for a
+// store to the access path of ld.
+func storeBefore(ld *ssa.UnOp, b *ssa.BasicBlock, idx int) (ssa.Value, bool) {
+	lp, ok := pathOf(ld)
+	if !ok || len(lp.Elems) == 0 {
+		return nil, false
+	}
+	want := strings.Join(lp.Elems, ".")
+	for hops := 0; hops < 12; hops++ {
+		for i := idx - 1; i >= 0; i-- {
+			switch x := b.Instrs[i].(type) {
+			case *ssa.Store:
+				sp, ok := pathOfAddr(x.Addr)
+				if ok && sp.Root == lp.Root && strings.Join(sp.Elems, ".") == want {
+					return x.Val, true
+				}
+			case ssa.CallInstruction:
+				for _, a := range x.Common().Args {
+					if stripConv(a) == lp.Root {
+						return nil, false
+					}
+				}
+			}
+		}
+		if len(b.Preds) != 1 {
+			return nil, false
+		}
+		b = b.Preds[0]
+		idx = len(b.Instrs)
+	}
+	return nil, false
+}
+
+// memoryMerge: ld sits in (or below, along unique predecessors) a join block and
+// every predecessor path of that join stores the location.
+func memoryMerge(ld *ssa.UnOp) []phiLeaf {
+	b := ld.Block()
+	idx := instrIndex(ld)
+	for hops := 0; hops < 12; hops++ {
+		if _, ok := storeBefore(ld, b, idx); ok && hops == 0 {
+			return nil // plain forwarding applies
+		}
+		// any store in this block before idx? then not a merge
+		if len(b.Preds) >= 2 {
+			var out []phiLeaf
+			for _, p := range b.Preds {
+				v, ok := storeBefore(ld, p, len(p.Instrs))
+				if !ok {
+					return nil
+				}
+				out = append(out, phiLeaf{val: v, from: p, at: b})
+			}
+			return out
+		}
+		if len(b.Preds) != 1 {
+			return nil
+		}
+		b = b.Preds[0]
+		idx = len(b.Instrs)
+	}
+	return nil
+}
+
+// evalAlts evaluates v; when exactly one load under v is a memory merge it
+// returns one form per incoming path, otherwise the single form.
+func (fe *formEval) evalAlts(v ssa.Value) []formAlt {
+	var merges []*ssa.UnOp
+	seen := map[ssa.Value]bool{}
+	var walk func(v ssa.Value)
+	walk = func(v ssa.Value) {
+		if seen[v] {
+			return
+		}
+		seen[v] = true
+		switch x := v.(type) {
+		case *ssa.UnOp:
+			if x.Op == token.MUL {
+				if sv, ok := forwardLoad(x); ok {
+					walk(sv)
+				} else if m := memoryMerge(x); m != nil {
+					merges = append(merges, x)
+				}
+				return
+			}
+			walk(x.X)
+		case *ssa.BinOp:
+			walk(x.X)
+			walk(x.Y)
+		case *ssa.Convert:
+			walk(x.X)
+		case *ssa.ChangeType:
+			walk(x.X)
+		}
+	}
+	walk(v)
+	if len(merges) != 1 {
+		return []formAlt{{form: fe.eval(v)}}
+	}
+	ld := merges[0]
+	var out []formAlt
+	for _, alt := range memoryMerge(ld) {
+		sub := newFormEval(fe.f)
+		sub.ord = fe.ord
+		av := alt.val
+		sub.override = func(x ssa.Value) (poly, bool) {
+			if x == ssa.Value(ld) {
+				return fe.eval(av), true
+			}
+			return nil, false
+		}
+		out = append(out, formAlt{form: sub.eval(v), from: alt.from, at: alt.at})
+	}
+	return out
 }
